@@ -43,7 +43,7 @@ PROBES = ['{e.__class__}', '{0}', '{url!r}', '{e.body.__class__.__mro__}', '{e.t
           '</tt><script>alert(1)</script>', '"><img src=x onerror=alert(1)>', "'-alert(1)-'", '&lt;script&gt;', '&#60;b&#62;',
           '<!--', '--><b>', '<![CDATA[', '\\', '\\x3cb\\x3e', '%3Cb%3E', '&amp;lt;', 'javascript:alert(1)', '<b' + 'a' * 1200 + '>', '<script>x</script>' + 'a' * 1200, 'a' * 1100 + '<b>"', '<i>' * 300]
 POSITIONS = ['path', 'query', 'host', 'xfhost', 'xfproto']
-KINDS = ['404', '405', '400', '500', 'critical', '400path']
+KINDS = ['404', '405', '400', '500', 'critical', '400path', '500data']
 
 
 def payloads(n):
@@ -61,6 +61,8 @@ def shards(tier, seed):
                 out.append((kind, pos, first, n))
             out.append((kind, pos, None, None))      # the probes
     # seed extension: one more character in the payload alphabet (all payloads <= 2 containing it)
+    for pos in POSITIONS:
+        out.append(('debugfirst', pos, None, None))
     out.append(('x', ['`', '\t', ';', '=', '/', '\x7f', '#', '?', '$', '\\'][seed % 10], None, 2))
     return out
 
@@ -112,8 +114,14 @@ def tokens(body):
 
 
 class Apps:
-    def __init__(self, om):
+    def __init__(self, om, debug_first=False):
         self.om = om
+        if debug_first:
+            # an application running with debug=True in the same process renders the first error page
+            dbg = om.Ombott({'debug': True})
+            dbg.route('/boom', 'GET', lambda: 1 / 0)
+            wsgi.call(dbg, wsgi.environ('GET', '/boom'))
+            wsgi.call(dbg, wsgi.environ('GET', '/missing'))
         app = om.Ombott()
 
         def only_post(x=None):
@@ -124,6 +132,11 @@ class Apps:
 
         def readbody(x=None):
             return app.request.body.read()
+
+        def crashdata(x=None):
+            # a typical handler failure whose message repeats request data
+            raise ValueError('invalid literal: %r / %s' % (app.request.query_string, app.request.path))
+        app.route('/d/<x:path>', 'GET', crashdata)
         app.route('/m/<x:path>', 'POST', only_post)
         app.route('/c/<x:path>', 'GET', crash)
         app.route('/b/<x:path>', 'POST', readbody)
@@ -136,7 +149,7 @@ class Apps:
         self.app2 = app2
 
     def request(self, kind, pos, payload, as_json):
-        base = {'404': '/nf/', '405': '/m/', '400': '/b/', '500': '/c/', 'critical': '/nf/', '400path': '/nf/\xe9'}[kind]
+        base = {'404': '/nf/', '405': '/m/', '400': '/b/', '500': '/c/', 'critical': '/nf/', '400path': '/nf/\xe9', '500data': '/d/'}[kind]
         path = base + (payload if pos == 'path' else 'a')
         qs = ('q=' + payload) if pos == 'query' else 'q=a'
         headers = {'Host': 'h.test'}
@@ -157,7 +170,7 @@ class Apps:
 
 
 def expected_status(kind):
-    return {'404': 404, '405': 405, '400': 400, '500': 500, 'critical': 500, '400path': 400}[kind]
+    return {'404': 404, '405': 405, '400': 400, '500': 500, 'critical': 500, '400path': 400, '500data': 500}[kind]
 
 
 def shown(pos, payload):
@@ -216,7 +229,11 @@ def work(spec):
     om = sut.load()
     apps = Apps(om)
     c = res['counters']
-    if kind == 'x':
+    if kind == 'debugfirst':
+        om = sut.load(fresh=True)
+        apps = Apps(om, debug_first=True)
+        jobs = [(k, pos, pl) for k in ('500data', '500', '404') for pl in list(payloads(2)) + PROBES[:12]]
+    elif kind == 'x':
         extra = pos
         jobs = []
         for k in KINDS:
@@ -240,7 +257,7 @@ def work(spec):
                 b = apps.request(k, p, 'a', False)
                 bb = b.body.decode('utf8', 'replace')
                 base_cache[key] = tokens(bb) + (bb,)
-            case = {'kind': k, 'pos': p, 'payload': payload, 'json': as_json}
+            case = {'kind': k, 'pos': p, 'payload': payload, 'json': as_json, 'debug_first': kind == 'debugfirst'}
             core.track(res, case)
             res['states'] += 1
             res['transitions'] += 1
@@ -261,6 +278,8 @@ def work(spec):
             if v is not None:
                 core.add_violation(res, case, f'{case}: {v[1]}', sig=f'{v[0]}:{k}')
     core.untrack()
+    if kind == 'debugfirst':
+        sut.load(fresh=True)
     core.add_sample(res, {'kind': kind, 'position': pos, 'first_symbol': first, 'requests': res['states'],
                           'example_payload': jobs[len(jobs) // 2][2][:60] if jobs else None})
     res['execs'] = res['transitions']
@@ -268,8 +287,8 @@ def work(spec):
 
 
 def replay(case):
-    om = sut.load()
-    apps = Apps(om)
+    om = sut.load(fresh=bool(case.get('debug_first')))
+    apps = Apps(om, debug_first=bool(case.get('debug_first')))
     k, p = case['kind'], case['pos']
     core_alphabet = all(ch in ALPHA for ch in case['payload']) or case['payload'] in PROBES
     b = apps.request(k, p, 'a', False)
@@ -278,5 +297,6 @@ def replay(case):
     v = judge(apps, k, p, case['payload'], case['json'], baseline, core_alphabet)
     if v is None:
         return None
-    return (f'{k} error page, payload {case["payload"][:100]!r} injected into {p}, '
+    return (('after an application with debug=True rendered the first error page of the process: ' if case.get('debug_first') else '') +
+            f'{k} error page, payload {case["payload"][:100]!r} injected into {p}, '
             f'{"Accept: application/json" if case["json"] else "HTML"}: {v[1]}')
